@@ -120,17 +120,28 @@ def LoadSt.loads (c : LoadSt) : List (Level × KVs) → LoadSt
   | [] => c
   | (l, d) :: rest => (c.load l d).loads rest
 
-/-- `load_shell_env`: merge what is loaded so far, crawl THAT view for the settings the environment may
-    override, store the result as the env level and merge again -/
+/-- `load_shell_env`: the env level left by an earlier load is dropped, what the OTHER levels hold is merged, THAT
+    view is crawled for the settings the environment may override, the result becomes the env level, merge again -/
 def LoadSt.loadShellEnv (c : LoadSt) (pre : List Char) (environ : Environ) : Except CErr LoadSt :=
+  match loadEnv pre environ (view (c.slots.set .env [])) with
+  | .error e => .error e
+  | .ok ev => .ok (c.load .env ev)
+
+/-- the rule before the repair (`fix: load_shell_env no longer lets a previous environment load keep settings …`):
+    the pre-merge still contained the env level of the previous load -/
+def LoadSt.loadShellEnvPinned (c : LoadSt) (pre : List Char) (environ : Environ) : Except CErr LoadSt :=
   match loadEnv pre environ (view c.slots) with
   | .error e => .error e
   | .ok ev => .ok (c.load .env ev)
 
 /-- `set_runtime_path(None)` / `set_project_location(None)` followed by `load_runtime()` / `load_project()`: the
-    slot is reset and the found flag cleared by the setter, the load returns early (no path) WITHOUT re-merging, so
-    the cache keeps showing the old content until the next merge -/
+    setter resets the slot and clears the found flag, the load finds no location and re-merges -/
 def LoadSt.unload (c : LoadSt) (l : Level) : LoadSt :=
+  { slots := c.slots.set l [], found := setFound c.found l none, cache := view (c.slots.set l []) }
+
+/-- the rule before the repair (`fix: loading a file level whose location was unset re-merges …`): the load
+    returned early WITHOUT re-merging, the cache kept showing the old content until the next merge -/
+def LoadSt.unloadPinned (c : LoadSt) (l : Level) : LoadSt :=
   { c with slots := c.slots.set l [], found := setFound c.found l none }
 
 end Inv
